@@ -16,10 +16,14 @@ use crate::run::{finish, par_shards, Ctx, Meta, Report};
 const P53: i64 = 9007199254740992;
 
 pub fn int_consts() -> Vec<i64> {
-    vec![i64::MIN, i64::MIN + 1, -2, -1, 0, 1, 2, 5, P53, P53 + 1, i64::MAX - 1, i64::MAX]
+    vec![
+        i64::MIN, i64::MIN + 1, -2, -1, 0, 1, 2, 5, P53, P53 + 1, i64::MAX - 1, i64::MAX,
+        // 32-bit and f32 boundaries (a narrowing conversion on the way wraps or rounds here)
+        (1 << 31) - 1, 1 << 31, (1 << 32) - 1, 1 << 32, -(1 << 31), -(1 << 31) - 1, (1 << 24) + 1, 255, 256, 65536,
+    ]
 }
 pub fn flt_consts() -> Vec<f64> {
-    vec![0.0, 0.5, -0.5, 1.5, -1.5, 2.0, -2.0, 1e19, 1.8446744073709552e19, 9.223372036854776e18, -9.223372036854776e18, 1e300, -1e300]
+    vec![0.0, 0.5, -0.5, 1.5, -1.5, 2.0, -2.0, 16777217.0, 4294967296.5, 1e15, 1e16, 123456789012345680.0, 1e-7, 3.4028235677973366e38, 1e19, 1.8446744073709552e19, 9.223372036854776e18, -9.223372036854776e18, 1e300, -1e300]
 }
 
 pub fn field_values() -> Vec<DVal> {
